@@ -224,6 +224,37 @@ def c16(run):
                 run.fail(case, 'callbacks invoked up to the failing one are not exactly the first i+1 nodes')
 
 
+    # (a) deeply nested blocks (8 ... 600 levels: nothing may be skipped however deep), (b) ONE runner reused: K walks that fail
+    # at callback W, then the reported walk -- a runner carries no state from walk to walk, so the answer is that of a fresh
+    # `walk` (the model's, and the implementation's own `walk` answer)
+    deep = []
+    for nn in [8, 9, 64, 255, 256, 257, 400, 511, 512, 513, 600]:
+        deep.append('while x\n' * nn + 'say y plus 1\n' + '\n' * nn + 'say z\n')
+        deep.append('if x\n' * nn + 'put 1 into y\n' + '\n' * nn)
+    dreqs = ['walk %s -' % hx(t) for t in deep]
+    dm, dim = run.tie(dreqs, functional=True, desc=lambda i: {'program': deep[i][:100] + ' ...', 'section': 'deep nesting'})
+    for t, r in zip(deep, dim):
+        run.case(('deep', t), True, kind='deep-nesting')
+        if r is not None and first_word(r) not in ('ok', 'err'):
+            run.fail({'program': t[:100] + ' ...', 'answer': r[:100]}, 'walking a deeply nested program does not return')
+    seq_src = [src for _, src, evs in progs_[:run.n(60, 1000)] if len(evs) >= 3]
+    sq, sqm = [], []
+    for src in seq_src:
+        for k in (1, 3, 300):
+            w = rng.randint(0, 6)
+            f = rng.choice(['-', '-', str(rng.randint(0, 6))])
+            sq.append('walkseq %s %d %d %s' % (hx(src), w, k, f))
+            sqm.append('walk %s %s' % (hx(src), f))
+    got = common.impl(sq)
+    ref_m = common.model(sqm)
+    ref_i = common.impl(sqm)
+    for q, q1, g, a, b in zip(sq, sqm, got, ref_m, ref_i):
+        run.case(('walkseq', q), True, kind='reused-runner')
+        if g != b or (a.split(' ')[0] not in ('fuel', 'resource') and g != a):
+            run.fail({'request': q, 'reused_runner': g[:300], 'fresh_runner': b[:300], 'model': a[:300]},
+                     'a runner that has been used for earlier (failing) walks presents the tree differently from a fresh one')
+
+
 # ----------------------------------------------------------------------------- C17
 
 def const_expr(rng, d):
@@ -831,6 +862,13 @@ def c20(run):
             src = texts.mutate(rng, progs.render(rng, io_program(rng)))
         stdin = rng.choice(['', 'one\ntwo\nthree\n', 'no newline', 'é\n\nΩ\n'])
         cases.append((src, stdin))
+    # output whose size and shape meets the buffering of a real standard output: one `say` of a multi-line string whose
+    # last line has N bytes, a single line of N bytes, N short lines, an echoed input line of N bytes
+    for nn in ([100, 1023, 1024, 1025, 8192, 70000] if run.tier == 'quick' else [100, 511, 512, 1023, 1024, 1025, 2048, 4095, 4096, 8191, 8192, 8193, 65536, 70000, 300000]):
+        cases.append(('say "first line\n%s"\nsay "end"\n' % ('x' * nn), ''))
+        cases.append(('say "%s"\nsay "end"\n' % ('é' * (nn // 2)), ''))
+        cases.append(('say "a\n\n%s\n"\nlisten to it\nsay it\n' % ('y' * nn), 'z' * nn + '\nrest\n'))
+        cases.append(('put 0 into ii\nwhile ii is less than %d\nsay ii\nbuild ii up\n\nsay nosuchname\n' % min(nn, 3000), ''))
     reqs = [run_req(s, i) for s, i in cases]
     m, im = run.tie(reqs, proj=proj_run, functional=True, desc=lambda i: {'program': cases[i][0], 'stdin': cases[i][1]})
     lreqs = ['lint ' + hx(s) for s, _ in cases]
